@@ -709,3 +709,20 @@ Definition decode (t : ty) (bytes : list Z) : res val :=
     else Err E_TYPE
   | _ => Err E_NED
   end.
+
+(* number of bytes of the body the reader consumed (the Reader position when
+   deserialize_top_level_type returns Ok), used by the padding oracle *)
+Definition decode_end (t : ty) (bytes : list Z) : option Z :=
+  match bytes with
+  | b0 :: b1 :: _ :: _ :: body =>
+    let ve := if (b1 =? 0) || (b1 =? 2) then Some (V1, BE)
+              else if (b1 =? 1) || (b1 =? 3) then Some (V1, LE)
+              else if (b1 =? 6) || (b1 =? 8) || (b1 =? 10) then Some (V2, BE)
+              else if (b1 =? 7) || (b1 =? 9) || (b1 =? 11) then Some (V2, LE)
+              else None in
+    match ve with
+    | Some (v, e) => match des_ty v e body t 0 with DOk _ p => Some p | _ => None end
+    | None => None
+    end
+  | _ => None
+  end.
